@@ -9,6 +9,6 @@ namespace Tromp.Cxx
 
 /-- `ptr_deref<M>::matches` — translated from include/trompeloeil/matcher/deref.hpp:42 -/
 def deref_matches (u_not_null : Bool) (m_matches_pointee : Bool) : Bool := Id.run do
-  return ((u_not_null) && m_matches_pointee)
+  return (u_not_null && m_matches_pointee)
 
 end Tromp.Cxx
